@@ -72,6 +72,13 @@ func (tr *Trace) Timeline(from, to time.Duration, withLogs bool) string {
 	for _, w := range tr.WatchEvs {
 		add(w.Seq, w.T, "WATCH %s#%d w%d ev marker=%v rev=%d del=%v dropped=%v", tr.Plan.Instances[w.Inst].ID, w.Obj, w.WatchID, w.Ev.Marker, w.Ev.Rev, w.Ev.Delete, w.Dropped)
 	}
+	if withLogs {
+		for _, sn := range tr.Snaps {
+			for _, si := range sn.Insts {
+				add(sn.Seq, sn.T, "SNAP  %s#%d state=%s leader=%v leaderID=%q rev=%d started=%v instop=%v", tr.Plan.Instances[si.Inst].ID, si.Obj, si.State, si.IsLeader, si.StLeaderID, si.Revision, si.Started, si.InStop)
+			}
+		}
+	}
 	for _, w := range tr.WatchCloses {
 		add(w.Seq, w.T, "WATCH %s#%d w%d channel closed by the store side", tr.Plan.Instances[w.Inst].ID, w.Obj, w.WatchID)
 	}
